@@ -82,6 +82,22 @@ def family():
                                    "Limit": {"name": "limit", "in": "query", "schema": {"type": "integer", "default": 5}}},
                     "responses": {"Ok": {"description": "d", "content": {"application/json": {"schema": ref("Kind")}}}},
                     "requestBodies": {"B": {"content": {"application/json": {"schema": ref("Kind")}}}}})
+    # unions that, once nested unions are flattened, name the same member more than once (a de-duplication point)
+    F["unions-repeated-members"] = gen.base_doc({
+        "Cat": obj(m={"type": "string"}), "Dog": obj(w={"type": "string"}), "Bird": obj(t={"type": "string"}),
+        "CatOrDog": {"oneOf": [ref("Cat"), ref("Dog")]}, "DogOrBird": {"oneOf": [ref("Dog"), ref("Bird")]},
+        "Owner": obj(pet={"oneOf": [ref("CatOrDog"), ref("DogOrBird")]},
+                     maybe={"oneOf": [{"type": ["string", "null"]}, {"type": ["integer", "null"]}, {"type": ["number", "null"], "format": "float"}]},
+                     pets={"type": "array", "items": {"anyOf": [ref("DogOrBird"), ref("CatOrDog"), {"type": "null"}, ref("Cat")]}},
+                     scalars={"anyOf": [{"type": "string"}, {"type": "integer"}, {"type": "string"}, {"type": "boolean"}, {"type": "integer"}]})},
+        paths={"/o": {"get": {"operationId": "getO", "responses": {"200": {"description": "d", "content": {"application/json": {"schema": {"oneOf": [ref("CatOrDog"), ref("DogOrBird"), ref("Owner")]}}}}}}}})
+    # component-level unions / arrays of unions with an inline member BEFORE a reference: the reference may be a forward one
+    F["component-union-inline-first"] = gen.base_doc({
+        "Later": obj(l={"type": "integer"}),
+        "Choice": {"oneOf": [obj(inl={"type": "string"}), ref("Later")]},
+        "Choices": {"type": "array", "items": {"anyOf": [obj(row={"type": "number"}), {"type": "string", "enum": ["e1", "e2"]}, ref("Later")]}},
+        "Owner": obj(c=ref("Choice"), cs=ref("Choices"))},
+        paths={"/c": {"get": {"operationId": "getC", "responses": jr("Owner")}}})
     out = {}
     for k, v in F.items():
         out[k] = v if isinstance(v, tuple) else (v, {})
